@@ -158,18 +158,1051 @@ Proof.
 Qed.
 
 Lemma getjob_setjob : forall js x f y,
-  (forall j, j_serial (f j) = j_serial j) ->
+  (forall j, j_serial j = x -> j_serial (f j) = x) ->
   getjob (setjob x f js) y = if y =? x then option_map f (getjob js x) else getjob js y.
 Proof.
   intros js x f y Hf. unfold setjob. induction js as [|z r IH]; cbn [map getjob].
   - destruct (y =? x); reflexivity.
   - destruct (j_serial z =? x) eqn:E.
-    + rewrite Hf. apply N.eqb_eq in E. rewrite E.
+    + apply N.eqb_eq in E. rewrite (Hf _ E).
       destruct (y =? x) eqn:E2.
       * apply N.eqb_eq in E2. subst y. rewrite N.eqb_refl. reflexivity.
-      * rewrite N.eqb_sym, E2. exact IH.
+      * rewrite (N.eqb_sym x y), E2. rewrite E, (N.eqb_sym x y), E2. exact IH.
     + destruct (j_serial z =? y) eqn:E3.
       * destruct (y =? x) eqn:E2; [|reflexivity].
         apply N.eqb_eq in E2, E3. subst. rewrite N.eqb_refl in E. discriminate.
       * exact IH.
 Qed.
+
+(* ------------------------------------------------------------------ the invariant *)
+
+(* how many places a job object must occupy: 1 while unfinished, 0 if it does not exist,
+   unconstrained once finished (stale heap entries / running_jobs entries are harmless) *)
+Definition want (js : list job) (x : N) : option nat :=
+  match getjob js x with
+  | None => Some 0%nat
+  | Some j => if j_done j then None else Some 1%nat
+  end.
+
+Definition eligible (ch : N) (chs : list N) : Prop := chs = [] \/ mem ch chs = true.
+
+(* L: job objects "in hand" of the code between two lines (popped, not yet delivered / re-queued);
+   R: copies still visible that the code is about to drop *)
+Record Inv (s : state) (L R : list N) : Prop := {
+  inv_cons : forall x n, want (s_jobs s) x = Some n -> (locs s x + occ x L = n + occ x R)%nat;
+  inv_addr : forall x j, getjob (s_jobs s) x = Some j -> j_done j = false -> occ x L = 0%nat ->
+             id_lookup (s_ids s) (j_id j) = Some x;
+  inv_uniq : forall x y jx jy, getjob (s_jobs s) x = Some jx -> getjob (s_jobs s) y = Some jy ->
+             j_done jx = false -> j_done jy = false -> j_id jx = j_id jy -> x = y;
+  inv_auto : forall x j n, getjob (s_jobs s) x = Some j -> j_id j = JAuto n -> n = x;
+  inv_tab : forall x j, getjob (s_jobs s) x = Some j -> x <= s_count s;
+  inv_err : forall x j, getjob (s_jobs s) x = Some j -> j_done j = false -> j_err j = ENone;
+  inv_wait : forall c chs, In (c, chs) (s_waiters s) -> c_st (get_conn (s_conns s) c) = BPull chs None;
+  inv_wnd : NoDup (map fst (s_waiters s));
+  inv_q : forall k q p x, In (k, q) (s_queues s) -> In (p, x) q ->
+          exists j, getjob (s_jobs s) x = Some j /\ j_chan j = k /\ j_prio j = p;
+  inv_run : forall c i w, In c (s_conns s) -> In (i, w) (c_run c) ->
+            exists j, getjob (s_jobs s) w = Some j /\ j_id j = i;
+  inv_mb : forall c chs x, c_st (get_conn (s_conns s) c) = BPull chs (Some x) ->
+           exists j, getjob (s_jobs s) x = Some j /\ eligible (j_chan j) chs
+}.
+
+(* evolution of the job table: same objects, immutable fields, done only grows *)
+Definition tab_le (js js' : list job) : Prop :=
+  forall x,
+    match getjob js x, getjob js' x with
+    | None, None => True
+    | Some j, Some j' => j_id j' = j_id j /\ j_chan j' = j_chan j /\ j_prio j' = j_prio j /\
+                         (j_done j' = false -> j_done j = false /\ j_err j' = j_err j)
+    | _, _ => False
+    end.
+
+Lemma tab_le_refl : forall js, tab_le js js.
+Proof. intros js x. destruct (getjob js x); auto. Qed.
+
+Lemma tab_le_trans : forall a b c, tab_le a b -> tab_le b c -> tab_le a c.
+Proof.
+  intros a b c H1 H2 x. specialize (H1 x). specialize (H2 x).
+  destruct (getjob a x), (getjob b x), (getjob c x); try contradiction; auto.
+  destruct H1 as (?&?&?&H1), H2 as (?&?&?&H2). split; [congruence|]. split; [congruence|]. split; [congruence|].
+  intro D. destruct (H2 D) as [D1 E1]. destruct (H1 D1) as [D2 E2]. split; congruence.
+Qed.
+
+Lemma tab_le_some : forall js js' x j', tab_le js js' -> getjob js' x = Some j' ->
+  exists j, getjob js x = Some j /\ j_id j' = j_id j /\ j_chan j' = j_chan j /\ j_prio j' = j_prio j /\
+            (j_done j' = false -> j_done j = false /\ j_err j' = j_err j).
+Proof.
+  intros js js' x j' H E. specialize (H x). rewrite E in H. destruct (getjob js x); [|contradiction].
+  eexists; split; [reflexivity|]. tauto.
+Qed.
+
+Lemma tab_le_some' : forall js js' x j, tab_le js js' -> getjob js x = Some j ->
+  exists j', getjob js' x = Some j' /\ j_id j' = j_id j /\ j_chan j' = j_chan j /\ j_prio j' = j_prio j.
+Proof.
+  intros js js' x j H E. specialize (H x). rewrite E in H. destruct (getjob js' x); [|contradiction].
+  eexists; split; [reflexivity|]. tauto.
+Qed.
+
+Lemma tab_le_want : forall js js' x n, tab_le js js' -> want js' x = Some n -> want js x = Some n.
+Proof.
+  intros js js' x n H. unfold want. specialize (H x).
+  destruct (getjob js x) as [j|], (getjob js' x) as [j'|]; try contradiction; auto.
+  destruct H as (_&_&_&H). destruct (j_done j') eqn:E; [discriminate|]. destruct (H eq_refl) as [H0 _]. rewrite H0. auto.
+Qed.
+
+(* a state transformer that leaves queues, connections, waiters, ids, count alone and only
+   finishes jobs preserves the invariant *)
+Lemma inv_tab_le : forall s s' L R,
+  Inv s L R -> tab_le (s_jobs s) (s_jobs s') ->
+  s_queues s' = s_queues s -> s_conns s' = s_conns s -> s_waiters s' = s_waiters s ->
+  s_ids s' = s_ids s -> s_count s' = s_count s ->
+  Inv s' L R.
+Proof.
+  intros s s' L R I T Hq Hc Hw Hi Hn. destruct I.
+  constructor; unfold locs in *; rewrite ?Hq, ?Hc, ?Hw, ?Hi, ?Hn in *.
+  - intros x n W. apply inv_cons0. eapply tab_le_want; eauto.
+  - intros x j' E D O. destruct (tab_le_some _ _ _ _ T E) as (j&E0&Hid&_&_&Hd).
+    rewrite Hid. apply inv_addr0; auto. apply Hd; auto.
+  - intros x y jx jy Ex Ey Dx Dy Hid.
+    destruct (tab_le_some _ _ _ _ T Ex) as (jx0&Ex0&Hidx&_&_&Hdx).
+    destruct (tab_le_some _ _ _ _ T Ey) as (jy0&Ey0&Hidy&_&_&Hdy).
+    eapply inv_uniq0; eauto; try congruence; [apply Hdx|apply Hdy]; auto.
+  - intros x j' n E Hid. destruct (tab_le_some _ _ _ _ T E) as (j&E0&Hid0&_). eapply inv_auto0; eauto. congruence.
+  - intros x j' E. destruct (tab_le_some _ _ _ _ T E) as (j&E0&_). eapply inv_tab0; eauto.
+  - intros x j' E D. destruct (tab_le_some _ _ _ _ T E) as (j&E0&_&_&_&Hd). destruct (Hd D) as [D0 He].
+    rewrite He. eapply inv_err0; eauto.
+  - exact inv_wait0.
+  - exact inv_wnd0.
+  - intros k q p x H1 H2. destruct (inv_q0 _ _ _ _ H1 H2) as (j&E&Hc1&Hp).
+    destruct (tab_le_some' _ _ _ _ T E) as (j'&E'&_&Hc2&Hp2). exists j'. repeat split; congruence.
+  - intros c i w H1 H2. destruct (inv_run0 _ _ _ H1 H2) as (j&E&Hid).
+    destruct (tab_le_some' _ _ _ _ T E) as (j'&E'&Hid2&_). exists j'. split; congruence.
+  - intros c chs x H. destruct (inv_mb0 _ _ _ H) as (j&E&He).
+    destruct (tab_le_some' _ _ _ _ T E) as (j'&E'&_&Hc2&_). exists j'. split; [auto|]. rewrite Hc2. exact He.
+Qed.
+
+Lemma mark_fields : forall x u s,
+  s_queues (mark_finished x u s) = s_queues s /\ s_conns (mark_finished x u s) = s_conns s /\
+  s_waiters (mark_finished x u s) = s_waiters s /\ s_ids (mark_finished x u s) = s_ids s /\
+  s_count (mark_finished x u s) = s_count s /\ s_now (mark_finished x u s) = s_now s /\
+  s_tq (mark_finished x u s) = s_tq s.
+Proof.
+  intros x u s. unfold mark_finished. destruct (getjob (s_jobs s) x) as [j|]; [|repeat split].
+  destruct (j_done j); repeat split.
+Qed.
+
+Lemma mark_tab_le : forall x u s, tab_le (s_jobs s) (s_jobs (mark_finished x u s)).
+Proof.
+  intros x u s. unfold mark_finished. destruct (getjob (s_jobs s) x) as [j|] eqn:E; [|apply tab_le_refl].
+  destruct (j_done j) eqn:D; [apply tab_le_refl|].
+  cbn [s_jobs set_cnt set_hub set_jobs]. intro y.
+  rewrite getjob_setjob by (intros; cbn; eapply getjob_serial; eauto).
+  destruct (y =? x) eqn:Eyx.
+  - apply N.eqb_eq in Eyx. subst y. rewrite E. cbn. repeat split; try discriminate; auto.
+  - destruct (getjob (s_jobs s) y); auto.
+Qed.
+
+Lemma mark_inv : forall x u s L R, Inv s L R -> Inv (mark_finished x u s) L R.
+Proof.
+  intros x u s L R I. destruct (mark_fields x u s) as (?&?&?&?&?&?&?).
+  eapply inv_tab_le; eauto. apply mark_tab_le.
+Qed.
+
+Lemma mark_done : forall x u s, is_done (s_jobs (mark_finished x u s)) x = true.
+Proof.
+  intros x u s. unfold mark_finished, is_done. destruct (getjob (s_jobs s) x) as [j|] eqn:E.
+  - destruct (j_done j) eqn:D.
+    + rewrite E. exact D.
+    + cbn [s_jobs set_cnt set_hub set_jobs].
+      rewrite getjob_setjob by (intros; cbn; eapply getjob_serial; eauto).
+      rewrite N.eqb_refl, E. reflexivity.
+  - rewrite E. reflexivity.
+Qed.
+
+Lemma tab_le_done : forall js js' x, tab_le js js' -> is_done js x = true -> is_done js' x = true.
+Proof.
+  intros js js' x T. unfold is_done. specialize (T x).
+  destruct (getjob js x), (getjob js' x); try contradiction; auto.
+  destruct T as (_&_&_&T). intro D. destruct (j_done j0); auto. destruct (T eq_refl) as [T0 _]. rewrite T0 in D; auto.
+Qed.
+
+Ltac sf := cbn [s_count s_jobs s_ids s_queues s_waiters s_conns s_tq s_hub s_now s_cnt s_choices s_handed s_requeued
+                set_count set_jobs set_ids set_queues set_waiters set_conns set_tq set_hub set_now set_cnt
+                set_choices set_handed set_requeued fst snd c_id c_st c_run] in *.
+
+(* ------------------------------------------------------------------ preen *)
+
+Lemma ind_refl : forall x, ind x x = 1%nat.
+Proof. intro x. unfold ind. rewrite N.eqb_refl. reflexivity. Qed.
+
+Lemma ind_neq : forall a x, a <> x -> ind a x = 0%nat.
+Proof. intros a x H. unfold ind. apply N.eqb_neq in H. rewrite H. reflexivity. Qed.
+
+Lemma ind_cases : forall a x, (a = x /\ ind a x = 1%nat) \/ (a <> x /\ ind a x = 0%nat).
+Proof.
+  intros a x. unfold ind. destruct (a =? x) eqn:E.
+  - left. apply N.eqb_eq in E. auto.
+  - right. apply N.eqb_neq in E. auto.
+Qed.
+
+Lemma qocc_pos_In : forall x q, qocc x q <> 0%nat -> exists p, In (p, x) q.
+Proof.
+  intros x q. unfold qocc. induction q as [|[p y] r IH]; cbn [map occ snd]; intro H; [congruence|].
+  destruct (ind_cases y x) as [[E _]|[_ E]].
+  - subst. exists p. left; reflexivity.
+  - rewrite E in H. destruct IH as [p' Hp]; [lia|]. exists p'. right; exact Hp.
+Qed.
+
+Lemma qocc_preen : forall js x q, (is_done js x = false \/ qocc x q = 0%nat) -> qocc x (preen js q) = qocc x q.
+Proof.
+  intros js x q. induction q as [|y r IH]; intro H; cbn [preen]; [reflexivity|].
+  destruct (is_done js (snd y)) eqn:D; [|reflexivity].
+  unfold qocc in *. cbn [map occ] in *.
+  destruct (ind_cases (snd y) x) as [[E _]|[_ E]].
+  - subst. destruct H as [H|H]; [congruence|]. rewrite ind_refl in H. lia.
+  - rewrite E in *. cbn. apply IH. destruct H; [left; auto|right; lia].
+Qed.
+
+Lemma preen_In : forall js q y, In y (preen js q) -> In y q.
+Proof.
+  intros js q y. induction q as [|z r IH]; cbn [preen]; auto.
+  destruct (is_done js (snd z)); intro H; [right; auto|exact H].
+Qed.
+
+Lemma preen_head : forall js q y r, preen js q = y :: r -> is_done js (snd y) = false.
+Proof.
+  intros js q y r. induction q as [|z q IH]; cbn [preen]; [discriminate|].
+  destruct (is_done js (snd z)) eqn:D; [exact IH|]. intro H. inversion H; subst. exact D.
+Qed.
+
+Lemma want_cases : forall js x n, want js x = Some n ->
+  (n = 1%nat /\ is_done js x = false /\ exists j, getjob js x = Some j /\ j_done j = false) \/
+  (n = 0%nat /\ getjob js x = None).
+Proof.
+  intros js x n. unfold want, is_done. destruct (getjob js x) as [j|].
+  - destruct (j_done j) eqn:D; [discriminate|]. intro H; inversion H. left. repeat split; auto. exists j; auto.
+  - intro H; inversion H. right; auto.
+Qed.
+
+Lemma occ_qs_preen : forall js x qs,
+  (forall k q, In (k, q) qs -> is_done js x = false \/ qocc x q = 0%nat) ->
+  occ_qs x (map (fun kq => (fst kq, preen js (snd kq))) qs) = occ_qs x qs.
+Proof.
+  intros js x qs. induction qs as [|[k q] r IH]; intro H; cbn [map occ_qs fst snd]; [reflexivity|].
+  rewrite qocc_preen by (eapply H; left; reflexivity). rewrite IH; [reflexivity|].
+  intros k' q' Hin. eapply H. right; exact Hin.
+Qed.
+
+Lemma inv_q_absent : forall s L R x k q, Inv s L R -> getjob (s_jobs s) x = None -> In (k, q) (s_queues s) -> qocc x q = 0%nat.
+Proof.
+  intros s L R x k q I E Hin. destruct (Nat.eq_dec (qocc x q) 0) as [H|H]; [exact H|].
+  destruct (qocc_pos_In _ _ H) as [p Hp]. destruct (inv_q _ _ _ I _ _ _ _ Hin Hp) as (j&Ej&_). congruence.
+Qed.
+
+Lemma preenall_inv : forall s L R, Inv s L R -> Inv (preenall s) L R.
+Proof.
+  intros s L R I. unfold preenall. constructor; unfold locs; sf; try (destruct I; assumption).
+  - intros x n W. rewrite occ_qs_preen; [apply (inv_cons _ _ _ I); exact W|].
+    intros k q Hin. destruct (want_cases _ _ _ W) as [(_&D&_)|(_&E)]; [left; exact D|right].
+    eapply inv_q_absent; eauto.
+  - intros k q p x Hin Hp. apply in_map_iff in Hin. destruct Hin as ([k0 q0]&Heq&Hin). cbn in Heq. inversion Heq; subst.
+    apply preen_In in Hp. eapply (inv_q _ _ _ I); eauto.
+Qed.
+
+Lemma preenall_fields : forall s,
+  s_jobs (preenall s) = s_jobs s /\ s_conns (preenall s) = s_conns s /\ s_waiters (preenall s) = s_waiters s /\
+  s_ids (preenall s) = s_ids s /\ s_count (preenall s) = s_count s.
+Proof. intro s. repeat split. Qed.
+
+(* ------------------------------------------------------------------ ids, waiters *)
+
+Lemma id_lookup_set : forall ids i v i',
+  id_lookup (id_set ids i v) i' = if jid_eqb i i' then Some v else id_lookup ids i'.
+Proof.
+  induction ids as [|[k w] r IH]; intros i v i'; cbn [id_set id_lookup].
+  - destruct (jid_eqb i i'); reflexivity.
+  - destruct (jid_eqb k i) eqn:E; cbn [id_lookup].
+    + apply jid_eqb_eq in E. subst k. destruct (jid_eqb i i'); reflexivity.
+    + rewrite IH. destruct (jid_eqb k i') eqn:E2; [|reflexivity].
+      apply jid_eqb_eq in E2. subst k. rewrite jid_eqb_neq in E.
+      destruct (jid_eqb i i') eqn:E3; [|reflexivity]. apply jid_eqb_eq in E3. congruence.
+Qed.
+
+Lemma remove_waiter_In : forall c ws w, In w (remove_waiter c ws) -> In w ws.
+Proof.
+  induction ws as [|y r IH]; cbn [remove_waiter]; intros w H; [exact H|].
+  destruct (fst y =? c); [right; exact H|]. destruct H as [H|H]; [left; exact H|right; apply IH; exact H].
+Qed.
+
+Lemma remove_waiter_notin : forall c ws, NoDup (map fst ws) -> ~ In c (map fst (remove_waiter c ws)).
+Proof.
+  induction ws as [|y r IH]; cbn [remove_waiter map]; intros ND; [auto|].
+  inversion ND as [|? ? Hn ND']; subst.
+  destruct (fst y =? c) eqn:E.
+  - apply N.eqb_eq in E. subst. exact Hn.
+  - cbn [map]. intros [H|H]; [apply N.eqb_neq in E; congruence|]. apply IH in H; auto.
+Qed.
+
+Lemma remove_waiter_nodup : forall c ws, NoDup (map fst ws) -> NoDup (map fst (remove_waiter c ws)).
+Proof.
+  induction ws as [|y r IH]; cbn [remove_waiter map]; intros ND; [constructor|].
+  inversion ND as [|? ? Hn ND']; subst.
+  destruct (fst y =? c); [exact ND'|]. cbn [map]. constructor; [|apply IH; exact ND'].
+  intro H. apply Hn. apply in_map_iff in H. destruct H as (w&Hw&Hin). apply in_map_iff. exists w. split; [exact Hw|].
+  eapply remove_waiter_In; eauto.
+Qed.
+
+Lemma get_conn_In_or_new : forall cs c, In (get_conn cs c) cs \/ get_conn cs c = new_conn c.
+Proof.
+  induction cs as [|y r IH]; intro c; cbn [get_conn]; [right; reflexivity|].
+  destruct (c_id y =? c); [left; left; reflexivity|]. destruct (IH c); [left; right; auto|right; auto].
+Qed.
+
+Lemma nth_In_default : forall (A : Type) n (l : list A) d, In d l -> In (nth n l d) l.
+Proof.
+  intros A n l d Hd. destruct (Nat.lt_ge_cases n (length l)) as [H|H].
+  - apply nth_In. exact H.
+  - rewrite nth_overflow by exact H. exact Hd.
+Qed.
+
+(* ------------------------------------------------------------------ pushjob *)
+
+Lemma watches_eligible : forall ch w, watches ch w = true -> eligible ch (snd w).
+Proof. intros ch [c chs]. unfold watches, eligible. cbn [snd]. destruct chs; [left; reflexivity|right; assumption]. Qed.
+
+Lemma pushjob_jobs : forall x s, s_jobs (pushjob x s) = s_jobs s /\ s_count (pushjob x s) = s_count s.
+Proof.
+  intros x s. unfold pushjob. destruct (getjob (s_jobs s) x) as [j|]; [|auto]. cbv zeta. sf.
+  destruct (filter (watches (j_chan j)) (s_waiters s)); sf; auto.
+Qed.
+
+Lemma pushjob_inv : forall x s L R j,
+  Inv s (x :: L) R -> getjob (s_jobs s) x = Some j -> j_done j = false ->
+  Inv (pushjob x s) L R.
+Proof.
+  intros x s L R j I E D. unfold pushjob. rewrite E. cbv zeta. sf.
+  assert (ADDR : forall y jy, getjob (s_jobs s) y = Some jy -> j_done jy = false -> occ y L = 0%nat ->
+                 id_lookup (id_set (s_ids s) (j_id j) x) (j_id jy) = Some y).
+  { intros y jy Ey Dy Oy. rewrite id_lookup_set. destruct (jid_eqb (j_id j) (j_id jy)) eqn:Eid.
+    - apply jid_eqb_eq in Eid. f_equal. eapply (inv_uniq _ _ _ I); eauto.
+    - apply (inv_addr _ _ _ I); auto. cbn [occ].
+      destruct (ind_cases x y) as [[Exy _]|[_ Exy]]; [|lia].
+      subst. rewrite E in Ey. inversion Ey; subst. rewrite jid_eqb_refl in Eid. discriminate. }
+  destruct (filter (watches (j_chan j)) (s_waiters s)) as [|a0 alts'] eqn:EA.
+  - (* queued *)
+    constructor; unfold locs; sf; try (destruct I; assumption).
+    + intros y n W. pose proof (inv_cons _ _ _ I y n W) as H. unfold locs in H. cbn [occ] in H.
+      pose proof (occ_qs_set y (s_queues s) (j_chan j) (ins (j_prio j, x) (qget (s_queues s) (j_chan j)))) as H2.
+      rewrite qocc_ins in H2. cbn [snd] in H2. unfold qget in *. lia.
+    + intros k q p y Hin Hp. apply q_set_In in Hin. destruct Hin as [[Hk Hq]|Hin].
+      * subst. apply ins_In in Hp. destruct Hp as [Hp|Hp].
+        -- inversion Hp; subst. exists j. auto.
+        -- destruct (q_get (s_queues s) (j_chan j)) as [q0|] eqn:Eq; [|destruct Hp].
+           apply q_get_In in Eq. eapply (inv_q _ _ _ I); eauto.
+      * eapply (inv_q _ _ _ I); eauto.
+  - (* handed to a blocked puller *)
+    remember (nth (N.to_nat ((match s_choices s with [] => 0 | k :: _ => k end) mod N.of_nat (length (a0 :: alts')))) (a0 :: alts') a0) as w.
+    assert (Hw : In w (a0 :: alts')) by (subst w; apply nth_In_default; left; reflexivity).
+    rewrite <- EA in Hw. apply filter_In in Hw. destruct Hw as [Hw1 Hw2].
+    destruct w as [c chs]. sf.
+    pose proof (inv_wait _ _ _ I _ _ Hw1) as Hst.
+    constructor; unfold locs; sf; try (destruct I; assumption).
+    + intros y n W. pose proof (inv_cons _ _ _ I y n W) as H. unfold locs in H. cbn [occ] in H.
+      pose proof (occ_conns_put y (s_conns s) (mkConn c (BPull chs (Some x)) (c_run (get_conn (s_conns s) c)))) as H2.
+      sf. unfold occ_conn in H2. sf. rewrite Hst in H2. cbn [mb_occ] in H2. lia.
+    + intros c' chs' Hin. pose proof (remove_waiter_In _ _ _ Hin) as Hin0.
+      assert (c' <> c).
+      { intro; subst c'. apply (remove_waiter_notin c (s_waiters s) (inv_wnd _ _ _ I)).
+        apply in_map_iff. exists (c, chs'). auto. }
+      rewrite get_put_other by (sf; congruence). apply (inv_wait _ _ _ I); auto.
+    + apply remove_waiter_nodup. apply (inv_wnd _ _ _ I).
+    + intros c0 i w0 Hin Hr. apply put_conn_In in Hin. destruct Hin as [Hin|Hin].
+      * subst c0. sf. destruct (get_conn_In_or_new (s_conns s) c) as [H0|H0].
+        -- eapply (inv_run _ _ _ I); eauto.
+        -- rewrite H0 in Hr. destruct Hr.
+      * eapply (inv_run _ _ _ I); eauto.
+    + intros c' chs' y Hs. destruct (N.eq_dec c' c) as [Ec|Ec].
+      * subst c'. pose proof (get_put_same (s_conns s) (mkConn c (BPull chs (Some x)) (c_run (get_conn (s_conns s) c)))) as G.
+        sf. rewrite G in Hs. sf. inversion Hs; subst. exists j. split; auto.
+        apply (watches_eligible _ _ Hw2).
+      * rewrite get_put_other in Hs by (sf; congruence). apply (inv_mb _ _ _ I) in Hs. exact Hs.
+Qed.
+
+(* ------------------------------------------------------------------ deliver *)
+
+Definition old_occ (l : list (jid * N)) (i : jid) (x : N) : nat :=
+  match id_lookup l i with Some w => ind w x | None => 0%nat end.
+
+Lemma occ_run_set : forall x l i v,
+  (occ x (map snd (run_set l i v)) + old_occ l i x = occ x (map snd l) + ind v x)%nat.
+Proof.
+  intros x l i v. unfold old_occ. induction l as [|[k w] r IH]; cbn [run_set id_lookup map occ snd].
+  - lia.
+  - destruct (jid_eqb k i); cbn [map occ snd]; [lia|]. destruct (id_lookup r i); lia.
+Qed.
+
+Lemma run_set_In : forall l i v k w, In (k, w) (run_set l i v) -> (k = i /\ w = v) \/ In (k, w) l.
+Proof.
+  induction l as [|[k0 w0] r IH]; cbn [run_set]; intros i v k w H.
+  - destruct H as [H|[]]. inversion H; auto.
+  - destruct (jid_eqb k0 i) eqn:E.
+    + destruct H as [H|H]; [|right; right; exact H]. inversion H; subst. apply jid_eqb_eq in E. auto.
+    + destruct H as [H|H]; [right; left; exact H|]. destruct (IH _ _ _ _ H); [left; auto|right; right; auto].
+Qed.
+
+Lemma id_lookup_In : forall l i w, id_lookup l i = Some w -> In (i, w) l.
+Proof.
+  induction l as [|[k0 w0] r IH]; cbn [id_lookup]; intros i w H; [discriminate|].
+  destruct (jid_eqb k0 i) eqn:E.
+  - apply jid_eqb_eq in E. inversion H; subst. left; reflexivity.
+  - right. apply IH. exact H.
+Qed.
+
+Lemma occ_conn_le : forall x cs c, (occ_conn x (get_conn cs c) <= occ_conns x cs)%nat.
+Proof.
+  intros x cs c. induction cs as [|y r IH]; cbn [get_conn occ_conns].
+  - rewrite occ_conn_new. lia.
+  - destruct (c_id y =? c); lia.
+Qed.
+
+Lemma occ_pos_In : forall x l, occ x l <> 0%nat -> In x l.
+Proof.
+  intros x l. induction l as [|y r IH]; cbn [occ]; intro H; [congruence|].
+  destruct (ind_cases y x) as [[E _]|[_ E]]; [left; exact E|]. right. apply IH. lia.
+Qed.
+
+Lemma In_occ_pos : forall x l, In x l -> (1 <= occ x l)%nat.
+Proof.
+  intros x l. induction l as [|y r IH]; cbn [occ]; intro H; [destruct H|].
+  destruct H as [H|H]; [subst; rewrite ind_refl; lia|]. apply IH in H. lia.
+Qed.
+
+Lemma conn_run_exists : forall s L R c i w, Inv s L R -> In (i, w) (c_run (get_conn (s_conns s) c)) ->
+  exists j, getjob (s_jobs s) w = Some j /\ j_id j = i.
+Proof.
+  intros s L R c i w I H. destruct (get_conn_In_or_new (s_conns s) c) as [H0|H0].
+  - eapply (inv_run _ _ _ I); eauto.
+  - rewrite H0 in H. destruct H.
+Qed.
+
+Lemma deliver_inv : forall c chs x s L0 L1 j,
+  Inv s L0 [] -> getjob (s_jobs s) x = Some j -> j_done j = false ->
+  id_lookup (s_ids s) (j_id j) = Some x ->
+  (forall y n, want (s_jobs s) y = Some n ->
+             (occ y L0 + mb_occ y (c_st (get_conn (s_conns s) c)) = ind x y + occ y L1)%nat) ->
+  (forall chs', c_st (get_conn (s_conns s) c) <> BPull chs' None) ->
+  Inv (fst (deliver c chs x s)) L1 [].
+Proof.
+  intros c chs x s L0 L1 j I E D A HL Hnw. unfold deliver. rewrite E. cbv zeta. sf.
+  set (cn := get_conn (s_conns s) c) in *.
+  assert (NW : forall c' chs', In (c', chs') (s_waiters s) -> c' <> c).
+  { intros c' chs' Hin Ec. subst c'. apply (inv_wait _ _ _ I) in Hin. fold cn in Hin. eapply Hnw; eauto. }
+  assert (OLD : forall y n, want (s_jobs s) y = Some n -> old_occ (c_run cn) (j_id j) y = 0%nat).
+  { intros y n W. unfold old_occ. destruct (id_lookup (c_run cn) (j_id j)) as [w|] eqn:El; [|reflexivity].
+    destruct (ind_cases w y) as [[Ewy _]|[_ Ewy]]; [|exact Ewy]. subst w. exfalso.
+    apply id_lookup_In in El. destruct (conn_run_exists _ _ _ _ _ _ I El) as (jy&Ey&Hid).
+    destruct (want_cases _ _ _ W) as [(_&_&jy'&Ey'&Dy)|(_&En)]; [|congruence].
+    rewrite Ey in Ey'. inversion Ey'; subst jy'.
+    assert (y = x) by (eapply (inv_uniq _ _ _ I); eauto). subst y.
+    assert (W1 : want (s_jobs s) x = Some 1%nat) by (unfold want; rewrite E, D; reflexivity).
+    pose proof (inv_cons _ _ _ I x 1%nat W1) as H. unfold locs in H.
+    pose proof (occ_conn_le x (s_conns s) c) as H2. fold cn in H2. unfold occ_conn in H2.
+    assert (1 <= occ x (map snd (c_run cn)))%nat.
+    { apply In_occ_pos. apply in_map_iff. exists (j_id j, x). auto. }
+    specialize (HL x _ W1). rewrite ind_refl in HL. cbn [occ] in H. lia. }
+  constructor; unfold locs; sf; try (destruct I; assumption).
+  - intros y n W. pose proof (inv_cons _ _ _ I y n W) as H. unfold locs in H.
+    pose proof (occ_conns_put y (s_conns s) (mkConn c Idle (run_set (c_run cn) (j_id j) x))) as H2.
+    sf. fold cn in H2. unfold occ_conn in H2. sf. cbn [mb_occ] in H2.
+    pose proof (occ_run_set y (c_run cn) (j_id j) x) as H3. rewrite (OLD y n W) in H3.
+    specialize (HL y n W). lia.
+  - intros y jy Ey Dy Oy. destruct (N.eq_dec y x) as [Eyx|Eyx].
+    + subst y. rewrite E in Ey. inversion Ey; subst. exact A.
+    + apply (inv_addr _ _ _ I); auto. assert (Wy : want (s_jobs s) y = Some 1%nat) by (unfold want; rewrite Ey, Dy; reflexivity).
+      specialize (HL y _ Wy). rewrite ind_neq in HL by congruence. lia.
+  - intros c' chs' Hin. rewrite get_put_other by (sf; intro; subst; eapply NW; eauto).
+    apply (inv_wait _ _ _ I); auto.
+  - intros c0 i w Hin Hr. apply put_conn_In in Hin. destruct Hin as [Hin|Hin].
+    + subst c0. sf. apply run_set_In in Hr. destruct Hr as [[Hi Hw]|Hr].
+      * subst. exists j. auto.
+      * eapply conn_run_exists; eauto.
+    + eapply (inv_run _ _ _ I); eauto.
+  - intros c' chs' y Hs. destruct (N.eq_dec c' c) as [Ec|Ec].
+    + subst c'. pose proof (get_put_same (s_conns s) (mkConn c Idle (run_set (c_run cn) (j_id j) x))) as G.
+      sf. rewrite G in Hs. sf. discriminate.
+    + rewrite get_put_other in Hs by (sf; congruence). apply (inv_mb _ _ _ I) in Hs. exact Hs.
+Qed.
+
+(* ------------------------------------------------------------------ pop *)
+
+Lemma heads_spec : forall qs chs x, heads qs chs = Some x ->
+  exists k rest, In k chs /\ q_get qs k = Some (x :: rest).
+Proof.
+  intros qs chs. induction chs as [|c r IH]; cbn [heads]; intros x H; [discriminate|].
+  destruct (q_get qs c) as [[|y rest]|] eqn:E.
+  - destruct (IH _ H) as (k&rest&Hk&Hq). exists k, rest. split; [right; auto|auto].
+  - destruct (heads qs r) as [z|] eqn:Eh.
+    + destruct (key_lt z y).
+      * inversion H; subst. destruct (IH _ eq_refl) as (k&rest'&Hk&Hq). exists k, rest'. split; [right; auto|auto].
+      * inversion H; subst. exists c, rest. split; [left; auto|auto].
+    + inversion H; subst. exists c, rest. split; [left; auto|auto].
+  - destruct (IH _ H) as (k&rest&Hk&Hq). exists k, rest. split; [right; auto|auto].
+Qed.
+
+Lemma q_get_map : forall (f : list qkey -> list qkey) qs k,
+  q_get (map (fun kq => (fst kq, f (snd kq))) qs) k = option_map f (q_get qs k).
+Proof.
+  intros f qs k. induction qs as [|[k0 q0] r IH]; cbn [map q_get fst snd]; [reflexivity|].
+  destruct (k0 =? k); [reflexivity|exact IH].
+Qed.
+
+Lemma want_undone : forall js x j, getjob js x = Some j -> j_done j = false -> want js x = Some 1%nat.
+Proof. intros js x j E D. unfold want. rewrite E, D. reflexivity. Qed.
+
+Lemma NoDup_snoc : forall (l : list N) c, NoDup l -> ~ In c l -> NoDup (l ++ [c]).
+Proof.
+  induction l as [|y r IH]; cbn [app]; intros c ND Hn.
+  - constructor; [intros []|constructor].
+  - inversion ND; subst. constructor.
+    + intro H. apply in_app_or in H. destruct H as [H|[H|[]]]; [contradiction|]. subst. apply Hn. left; reflexivity.
+    + apply IH; auto. intro H. apply Hn. right; exact H.
+Qed.
+
+Lemma pop_or_block_inv : forall c chs s,
+  Inv s [] [] ->
+  (forall y n, want (s_jobs s) y = Some n -> mb_occ y (c_st (get_conn (s_conns s) c)) = 0%nat) ->
+  (forall chs', c_st (get_conn (s_conns s) c) <> BPull chs' None) ->
+  Inv (fst (pop_or_block c chs s)) [] [].
+Proof.
+  intros c chs s I MB NW. unfold pop_or_block. cbv zeta.
+  pose proof (preenall_inv _ _ _ I) as I1. destruct (preenall_fields s) as (Hj&Hc&Hw&Hi&Hn).
+  set (s1 := preenall s) in *.
+  destruct (heads (s_queues s1) _) as [[p x]|] eqn:EH.
+  - destruct (heads_spec _ _ _ EH) as (k&rest&_&Hq). cbn [snd].
+    pose proof (q_get_In _ _ _ Hq) as Hin.
+    destruct (inv_q _ _ _ I1 _ _ _ _ Hin (or_introl eq_refl)) as (j&Ej&Hch&Hp).
+    rewrite Ej. rewrite Hch, Hq. cbn [tl].
+    assert (Dj : j_done j = false).
+    { unfold s1, preenall in Hq. sf. rewrite q_get_map in Hq. destruct (q_get (s_queues s) k) as [q0|]; [|discriminate].
+      cbn in Hq. inversion Hq as [Hq']. apply preen_head in Hq'. cbn [snd] in Hq'. unfold is_done in Hq'.
+      rewrite Hj in Ej. rewrite Ej in Hq'. exact Hq'. }
+    set (s2 := set_queues (q_set (s_queues s1) k rest) s1).
+    assert (I2 : Inv s2 [x] []).
+    { constructor; unfold locs, s2; sf; try (destruct I1; assumption).
+      * intros y n W. pose proof (inv_cons _ _ _ I1 y n W) as H. unfold locs in H.
+        pose proof (occ_qs_set y (s_queues s1) k rest) as H2. unfold qget in H2. rewrite Hq in H2.
+        change (qocc y ((p, x) :: rest)) with (ind x y + qocc y rest)%nat in H2. cbn [occ] in *. lia.
+      * intros y jy Ey Dy Oy. apply (inv_addr _ _ _ I1); auto.
+      * intros k' q' p' y Hin' Hp'. apply q_set_In in Hin'. destruct Hin' as [[Hk Hq']|Hin'].
+        -- subst. eapply (inv_q _ _ _ I1); eauto. right; exact Hp'.
+        -- eapply (inv_q _ _ _ I1); eauto. }
+    apply (deliver_inv c chs x s2 [x] [] j I2 Ej Dj).
+    + apply (inv_addr _ _ _ I1); auto.
+    + intros y n W. unfold s2 in *. sf. rewrite Hc. rewrite Hj in W. rewrite (MB y n W). cbn [occ]. lia.
+    + unfold s2. sf. rewrite Hc. exact NW.
+  - sf. set (cn := get_conn (s_conns s1) c).
+    assert (NW' : forall c' chs', In (c', chs') (s_waiters s1) -> c' <> c).
+    { intros c' chs' Hin Ec. subst c'. apply (inv_wait _ _ _ I1) in Hin. rewrite Hc in Hin. eapply NW; eauto. }
+    constructor; unfold locs; sf; try (destruct I1; assumption).
+    + intros y n W. pose proof (inv_cons _ _ _ I1 y n W) as H. unfold locs in H.
+      pose proof (occ_conns_put y (s_conns s1) (mkConn c (BPull chs None) (c_run cn))) as H2.
+      sf. fold cn in H2. unfold occ_conn in H2. sf. cbn [mb_occ] in H2.
+      rewrite Hj in W. pose proof (MB y n W) as H3. rewrite <- Hc in H3. fold cn in H3. lia.
+    + intros c' chs' Hin. apply in_app_or in Hin. destruct Hin as [Hin|[Hin|[]]].
+      * rewrite get_put_other by (sf; intro; subst; eapply NW'; eauto). apply (inv_wait _ _ _ I1); auto.
+      * inversion Hin; subst. pose proof (get_put_same (s_conns s1) (mkConn c' (BPull chs' None) (c_run cn))) as G.
+        sf. rewrite G. reflexivity.
+    + rewrite map_app. cbn [map fst]. apply NoDup_snoc; [apply (inv_wnd _ _ _ I1)|].
+      intro Hin. apply in_map_iff in Hin. destruct Hin as ([c' chs']&Hf&Hin). cbn in Hf. subst c'. eapply NW'; eauto.
+    + intros c0 i w Hin Hr. apply put_conn_In in Hin. destruct Hin as [Hin|Hin].
+      * subst c0. sf. eapply conn_run_exists; eauto.
+      * eapply (inv_run _ _ _ I1); eauto.
+    + intros c' chs' y Hs. destruct (N.eq_dec c' c) as [Ec|Ec].
+      * subst c'. pose proof (get_put_same (s_conns s1) (mkConn c (BPull chs None) (c_run cn))) as G.
+        sf. rewrite G in Hs. sf. discriminate.
+      * rewrite get_put_other in Hs by (sf; congruence). apply (inv_mb _ _ _ I1) in Hs. exact Hs.
+Qed.
+
+(* ------------------------------------------------------------------ shutdown, die *)
+
+Lemma inv_drop_done : forall s w L R, Inv s (w :: L) R -> is_done (s_jobs s) w = true ->
+  getjob (s_jobs s) w <> None -> Inv s L R.
+Proof.
+  intros s w L R I D Ex. constructor; try (destruct I; assumption).
+  - intros y n W. pose proof (inv_cons _ _ _ I y n W) as H. cbn [occ] in H.
+    rewrite ind_neq in H; [exact H|]. intro; subst y.
+    destruct (want_cases _ _ _ W) as [(_&D'&_)|(_&E)]; congruence.
+  - intros y jy Ey Dy Oy. apply (inv_addr _ _ _ I); auto. cbn [occ]. rewrite ind_neq; [lia|].
+    intro; subst y. unfold is_done in D. rewrite Ey in D. congruence.
+Qed.
+
+Lemma inv_same : forall s s' L R, Inv s L R ->
+  s_jobs s' = s_jobs s -> s_queues s' = s_queues s -> s_conns s' = s_conns s -> s_waiters s' = s_waiters s ->
+  s_ids s' = s_ids s -> s_count s' = s_count s -> Inv s' L R.
+Proof.
+  intros s s' L R I Hj Hq Hc Hw Hi Hn. eapply inv_tab_le; eauto. rewrite Hj. apply tab_le_refl.
+Qed.
+
+Lemma is_done_false : forall js x, is_done js x = false -> exists j, getjob js x = Some j /\ j_done j = false.
+Proof. intros js x. unfold is_done. destruct (getjob js x) as [j|]; [eauto|discriminate]. Qed.
+
+Lemma shutdown_loop_inv : forall l s L R,
+  Inv s (map snd l ++ L) R ->
+  (forall i w, In (i, w) l -> getjob (s_jobs s) w <> None) ->
+  Inv (shutdown_loop l s) L R.
+Proof.
+  induction l as [|[i w] r IH]; intros s L R I Ex; cbn [shutdown_loop map app snd] in *; [exact I|].
+  destruct (is_done (s_jobs s) w) eqn:D.
+  - apply IH.
+    + eapply inv_drop_done; eauto. eapply Ex. left; reflexivity.
+    + intros i' w' Hin. eapply Ex. right; exact Hin.
+  - destruct (is_done_false _ _ D) as (j&Ej&Dj).
+    apply IH.
+    + eapply pushjob_inv with (j := j); sf; auto. eapply inv_same; eauto.
+    + intros i' w' Hin. destruct (pushjob_jobs w (set_requeued (w :: s_requeued s) s)) as [Hj _]. rewrite Hj. sf.
+      eapply Ex. right; exact Hin.
+Qed.
+
+Lemma not_waiter : forall s L R c, Inv s L R ->
+  (forall chs', c_st (get_conn (s_conns s) c) <> BPull chs' None) -> ~ In c (map fst (s_waiters s)).
+Proof.
+  intros s L R c I NW Hin. apply in_map_iff in Hin. destruct Hin as ([c' chs']&Hf&Hin). cbn in Hf. subst c'.
+  apply (inv_wait _ _ _ I) in Hin. eapply NW; eauto.
+Qed.
+
+Lemma die_inv : forall c s L R M,
+  Inv s L (M ++ R) ->
+  (forall y n, want (s_jobs s) y = Some n -> mb_occ y (c_st (get_conn (s_conns s) c)) = occ y M) ->
+  ~ In c (map fst (s_waiters s)) ->
+  Inv (fst (die c s)) L R.
+Proof.
+  intros c s L R M I MB NW. unfold die. cbv zeta. cbn [fst].
+  set (cn := get_conn (s_conns s) c) in *.
+  assert (NW' : forall c' chs', In (c', chs') (s_waiters s) -> c' <> c).
+  { intros c' chs' Hin Ec. subst c'. apply NW. apply in_map_iff. exists (c, chs'). auto. }
+  apply shutdown_loop_inv.
+  - constructor; unfold locs; sf; try (destruct I; assumption).
+    + intros y n W. pose proof (inv_cons _ _ _ I y n W) as H. unfold locs in H.
+      pose proof (occ_conns_put y (s_conns s) (mkConn c Dead [])) as H2. sf. fold cn in H2.
+      unfold occ_conn in H2. sf. cbn [mb_occ map occ] in H2. rewrite (MB y n W) in H2.
+      rewrite occ_app in *. lia.
+    + intros y jy Ey Dy Oy. apply (inv_addr _ _ _ I); auto. rewrite occ_app in Oy. lia.
+    + intros c' chs' Hin. rewrite get_put_other by (sf; intro; subst; eapply NW'; eauto).
+      apply (inv_wait _ _ _ I); auto.
+    + intros c0 i w Hin Hr. apply put_conn_In in Hin. destruct Hin as [Hin|Hin].
+      * subst c0. destruct Hr.
+      * eapply (inv_run _ _ _ I); eauto.
+    + intros c' chs' y Hs. destruct (N.eq_dec c' c) as [Ec|Ec].
+      * subst c'. pose proof (get_put_same (s_conns s) (mkConn c Dead [])) as G. sf. rewrite G in Hs. discriminate.
+      * rewrite get_put_other in Hs by (sf; congruence). apply (inv_mb _ _ _ I) in Hs. exact Hs.
+  - sf. intros i w Hin. destruct (conn_run_exists _ _ _ _ _ _ I Hin) as (j&Ej&_). congruence.
+Qed.
+
+(* ------------------------------------------------------------------ release (finish_event wake-ups) *)
+
+Lemma release_spec : forall ser js cs,
+  (forall x, occ_conns x (fst (release ser js cs)) = occ_conns x cs) /\
+  (forall c, c_run (get_conn (fst (release ser js cs)) c) = c_run (get_conn cs c) /\
+             (c_st (get_conn (fst (release ser js cs)) c) = c_st (get_conn cs c) \/
+              (c_st (get_conn (fst (release ser js cs)) c) = Idle /\ c_st (get_conn cs c) = BWait ser))) /\
+  (forall c', In c' (fst (release ser js cs)) -> exists c0, In c0 cs /\ c_run c' = c_run c0).
+Proof.
+  intros ser js cs. induction cs as [|y r (IH1&IH2&IH3)]; cbn [release].
+  - cbn. repeat split; auto. intros c' [].
+  - destruct (release ser js r) as [r' o] eqn:ER. cbn [fst] in *.
+    assert (CASE : (exists o', (let (r'0, o0) := (r', o) in
+              match c_st y with
+              | BWait w => if w =? ser then (mkConn (c_id y) Idle (c_run y) :: r', o') else (y :: r', o0)
+              | _ => (y :: r', o0) end) = (mkConn (c_id y) Idle (c_run y) :: r', o') /\ c_st y = BWait ser) \/
+            True) by (right; exact I).
+    clear CASE.
+    destruct (c_st y) as [| | w |] eqn:ES; try destruct (w =? ser) eqn:EW; cbn [fst];
+      (repeat split;
+       [ intro x; cbn [occ_conns]; rewrite IH1; try reflexivity; unfold occ_conn; sf; rewrite ?ES; reflexivity
+       | cbn [get_conn c_id]; destruct (c_id y =? c); [reflexivity|apply IH2]
+       | cbn [get_conn c_id]; destruct (c_id y =? c); sf;
+         [first [left; rewrite ES; reflexivity | right; split; [reflexivity|rewrite ES; apply N.eqb_eq in EW; subst; reflexivity]] | apply IH2]
+       | intros c' [H|H]; [subst c'; exists y; split; [left; reflexivity|reflexivity]
+                         | destruct (IH3 _ H) as (c0&H0&H1); exists c0; split; [right; exact H0|exact H1]] ]).
+Qed.
+
+(* ------------------------------------------------------------------ hub events *)
+
+Lemma pushjob_conn_other : forall x s c, ~ In c (map fst (s_waiters s)) ->
+  get_conn (s_conns (pushjob x s)) c = get_conn (s_conns s) c.
+Proof.
+  intros x s c Hn. unfold pushjob. destruct (getjob (s_jobs s) x) as [j|]; [|reflexivity]. cbv zeta. sf.
+  destruct (filter (watches (j_chan j)) (s_waiters s)) as [|a0 alts'] eqn:EA; sf; [reflexivity|].
+  remember (nth _ (a0 :: alts') a0) as w.
+  assert (Hw : In w (a0 :: alts')) by (subst w; apply nth_In_default; left; reflexivity).
+  rewrite <- EA in Hw. apply filter_In in Hw. destruct Hw as [Hw1 _].
+  apply get_put_other. sf. intro; subst c. apply Hn. apply in_map. exact Hw1.
+Qed.
+
+Lemma pushjob_waiters_sub : forall x s w, In w (s_waiters (pushjob x s)) -> In w (s_waiters s).
+Proof.
+  intros x s w. unfold pushjob. destruct (getjob (s_jobs s) x) as [j|]; [|auto]. cbv zeta. sf.
+  destruct (filter (watches (j_chan j)) (s_waiters s)); sf; [auto|]. apply remove_waiter_In.
+Qed.
+
+Lemma mb_done_occ : forall s L R c chs ser y n, Inv s L R ->
+  c_st (get_conn (s_conns s) c) = BPull chs (Some ser) -> is_done (s_jobs s) ser = true ->
+  want (s_jobs s) y = Some n -> ind ser y = 0%nat.
+Proof.
+  intros s L R c chs ser y n I Hs D W. destruct (ind_cases ser y) as [[E _]|[_ E]]; [|exact E]. subst y. exfalso.
+  destruct (inv_mb _ _ _ I _ _ _ Hs) as (j&Ej&_).
+  destruct (want_cases _ _ _ W) as [(_&D'&_)|(_&E)]; congruence.
+Qed.
+
+Lemma run_event_inv : forall e s, Inv s [] [] -> Inv (fst (run_event e s)) [] [].
+Proof.
+  intros e s I. destruct e as [c|c|ser]; cbn [run_event].
+  - destruct (c_st (get_conn (s_conns s) c)) as [|chs [ser|]|w|] eqn:ES; try exact I.
+    destruct (is_done (s_jobs s) ser) eqn:D.
+    + apply pop_or_block_inv; auto.
+      * intros y n W. rewrite ES. cbn [mb_occ]. eapply mb_done_occ; eauto.
+      * intros chs' H. rewrite ES in H. discriminate.
+    + destruct (is_done_false _ _ D) as (j&Ej&Dj).
+      apply (deliver_inv c chs ser s [] [] j I Ej Dj).
+      * apply (inv_addr _ _ _ I); auto.
+      * intros y n W. rewrite ES. cbn [mb_occ occ]. lia.
+      * intros chs' H. rewrite ES in H. discriminate.
+  - destruct (c_st (get_conn (s_conns s) c)) as [|chs mb|w|] eqn:ES; try exact I.
+    + apply die_inv with (M := []); auto.
+      * intros y n W. rewrite ES. reflexivity.
+      * eapply not_waiter; eauto. intros chs' H. rewrite ES in H. discriminate.
+    + set (s1 := set_waiters (remove_waiter c (s_waiters s)) s).
+      assert (I1 : Inv s1 [] []).
+      { constructor; unfold s1, locs; sf; try (destruct I; assumption).
+        - intros c' chs' Hin. apply remove_waiter_In in Hin. apply (inv_wait _ _ _ I); auto.
+        - apply remove_waiter_nodup. apply (inv_wnd _ _ _ I). }
+      assert (NI : ~ In c (map fst (s_waiters s1))) by (apply remove_waiter_notin; apply (inv_wnd _ _ _ I)).
+      assert (ES1 : c_st (get_conn (s_conns s1) c) = BPull chs mb) by exact ES.
+      destruct mb as [ser|].
+      * destruct (is_done (s_jobs s1) ser) eqn:D.
+        -- apply die_inv with (M := []); auto.
+           ++ intros y n W. rewrite ES1. cbn [mb_occ occ]. eapply mb_done_occ; eauto.
+        -- destruct (is_done_false _ _ D) as (j&Ej&Dj).
+           assert (I2 : Inv s1 [ser] [ser]).
+           { constructor; try (destruct I1; assumption).
+             - intros y n W. pose proof (inv_cons _ _ _ I1 y n W) as H. cbn [occ] in *. lia.
+             - intros y jy Ey Dy Oy. apply (inv_addr _ _ _ I1); auto. }
+           pose proof (pushjob_inv ser s1 [] [ser] j I2 Ej Dj) as I3.
+           destruct (pushjob_jobs ser s1) as [Hj _].
+           apply die_inv with (M := [ser]); auto.
+           ++ intros y n W. rewrite pushjob_conn_other by exact NI. rewrite ES1. cbn [mb_occ occ]. lia.
+           ++ intro Hin. apply NI. apply in_map_iff in Hin. destruct Hin as (w0&Hf&Hin).
+              apply in_map_iff. exists w0. split; [exact Hf|]. eapply pushjob_waiters_sub; eauto.
+      * apply die_inv with (M := []); auto.
+        -- intros y n W. rewrite ES1. reflexivity.
+    + apply die_inv with (M := []); auto.
+      * intros y n W. rewrite ES. reflexivity.
+      * eapply not_waiter; eauto. intros chs' H. rewrite ES in H. discriminate.
+  - destruct (release ser (s_jobs s) (s_conns s)) as [cs o] eqn:ER. cbn [fst].
+    destruct (release_spec ser (s_jobs s) (s_conns s)) as (R1&R2&R3). rewrite ER in *. cbn [fst] in *.
+    constructor; unfold locs; sf; try (destruct I; assumption).
+    + intros y n W. rewrite R1. apply (inv_cons _ _ _ I); auto.
+    + intros c chs Hin. pose proof (inv_wait _ _ _ I _ _ Hin) as H. destruct (R2 c) as [_ [H2|[_ H2]]]; congruence.
+    + intros c' i w Hin Hr. destruct (R3 _ Hin) as (c0&H0&H1). rewrite H1 in Hr. eapply (inv_run _ _ _ I); eauto.
+    + intros c chs y Hs. destruct (R2 c) as [_ [H2|[H2 _]]]; [|congruence]. rewrite H2 in Hs. apply (inv_mb _ _ _ I) in Hs. exact Hs.
+Qed.
+
+Lemma run_events_inv : forall es s, Inv s [] [] -> Inv (fst (run_events es s)) [] [].
+Proof.
+  induction es as [|e r IH]; intros s I; cbn [run_events]; [exact I|].
+  pose proof (run_event_inv e s I) as I1. destruct (run_event e s) as [s1 o1]. cbn [fst] in I1.
+  specialize (IH s1 I1). destruct (run_events r s1) as [s2 o2]. exact IH.
+Qed.
+
+(* ------------------------------------------------------------------ ops on an idle connection *)
+
+Lemma is_idle_st : forall c s, is_idle c s = true -> c_st (get_conn (s_conns s) c) = Idle.
+Proof. intros c s. unfold is_idle. destruct (c_st (get_conn (s_conns s) c)); congruence. Qed.
+
+Lemma conn_update_inv : forall s c st l,
+  Inv s [] [] -> c_st (get_conn (s_conns s) c) = Idle ->
+  (st = Idle \/ exists w, st = BWait w) ->
+  (forall y n, want (s_jobs s) y = Some n -> occ y (map snd l) = occ y (map snd (c_run (get_conn (s_conns s) c)))) ->
+  incl l (c_run (get_conn (s_conns s) c)) ->
+  Inv (set_conns (put_conn (s_conns s) (mkConn c st l)) s) [] [].
+Proof.
+  intros s c st l I ES Hst Hocc Hincl.
+  assert (NW' : forall c' chs', In (c', chs') (s_waiters s) -> c' <> c).
+  { intros c' chs' Hin Ec. subst c'. apply (inv_wait _ _ _ I) in Hin. congruence. }
+  assert (MB0 : forall y, mb_occ y st = 0%nat) by (intro y; destruct Hst as [->|[w ->]]; reflexivity).
+  constructor; unfold locs; sf; try (destruct I; assumption).
+  - intros y n W. pose proof (inv_cons _ _ _ I y n W) as H. unfold locs in H.
+    pose proof (occ_conns_put y (s_conns s) (mkConn c st l)) as H2. sf. unfold occ_conn in H2. sf.
+    rewrite ES, MB0 in H2. cbn [mb_occ] in H2. rewrite (Hocc y n W) in H2. lia.
+  - intros c' chs' Hin. rewrite get_put_other by (sf; intro; subst; eapply NW'; eauto). apply (inv_wait _ _ _ I); auto.
+  - intros c0 i w Hin Hr. apply put_conn_In in Hin. destruct Hin as [Hin|Hin].
+    + subst c0. sf. eapply conn_run_exists; eauto.
+    + eapply (inv_run _ _ _ I); eauto.
+  - intros c' chs' y Hs. destruct (N.eq_dec c' c) as [Ec|Ec].
+    + subst c'. pose proof (get_put_same (s_conns s) (mkConn c st l)) as G. sf. rewrite G in Hs. sf.
+      destruct Hst as [->|[w ->]]; discriminate.
+    + rewrite get_put_other in Hs by (sf; congruence). apply (inv_mb _ _ _ I) in Hs. exact Hs.
+Qed.
+
+Lemma occ_run_del : forall x l i, (occ x (map snd (run_del l i)) + old_occ l i x = occ x (map snd l))%nat.
+Proof.
+  intros x l i. unfold old_occ. induction l as [|[k w] r IH]; cbn [run_del id_lookup map occ snd]; [lia|].
+  destruct (jid_eqb k i); cbn [map occ snd]; [lia|]. destruct (id_lookup r i); lia.
+Qed.
+
+Lemma run_del_incl : forall l i, incl (run_del l i) l.
+Proof.
+  induction l as [|[k w] r IH]; intros i; cbn [run_del]; [apply incl_refl|].
+  destruct (jid_eqb k i); [apply incl_tl, incl_refl|]. intros y [H|H]; [left; auto|right; apply (IH i); auto].
+Qed.
+
+Lemma run_del_fold : forall js l y,
+  (forall i w, In i js -> In (i, w) l -> w <> y) ->
+  occ y (map snd (fold_left run_del js l)) = occ y (map snd l) /\ incl (fold_left run_del js l) l.
+Proof.
+  induction js as [|i r IH]; intros l y H; cbn [fold_left]; [split; [reflexivity|apply incl_refl]|].
+  destruct (IH (run_del l i) y) as [H1 H2].
+  - intros i' w Hi Hin. apply (H i' w); [right; auto|]. eapply run_del_incl; eauto.
+  - split; [|eapply incl_tran; [exact H2|apply run_del_incl]].
+    rewrite H1. pose proof (occ_run_del y l i) as H3. unfold old_occ in H3.
+    destruct (id_lookup l i) as [w|] eqn:El; [|lia]. apply id_lookup_In in El.
+    rewrite ind_neq in H3; [lia|]. apply (H i w); [left; auto|auto].
+Qed.
+
+Lemma run_del_fold_incl : forall js l, incl (fold_left run_del js l) l.
+Proof.
+  induction js as [|i r IH]; intros l; cbn [fold_left]; [apply incl_refl|].
+  eapply incl_tran; [apply IH|apply run_del_incl].
+Qed.
+
+Lemma killjobs_inv : forall js s L R, Inv s L R -> Inv (killjobs js s) L R.
+Proof.
+  induction js as [|i r IH]; intros s L R I; cbn [killjobs]; [exact I|].
+  destruct (id_lookup (s_ids s) i); apply IH; [apply mark_inv|]; exact I.
+Qed.
+
+Lemma killjobs_ids : forall js s, s_ids (killjobs js s) = s_ids s /\ tab_le (s_jobs s) (s_jobs (killjobs js s)) /\
+  s_conns (killjobs js s) = s_conns s.
+Proof.
+  induction js as [|i r IH]; intros s; cbn [killjobs]; [repeat split; apply tab_le_refl|].
+  destruct (id_lookup (s_ids s) i) as [ser|]; [|apply IH].
+  destruct (IH (mark_finished ser (upd_err e_killed) s)) as (H1&H2&H3).
+  destruct (mark_fields ser (upd_err e_killed) s) as (_&Hc&_&Hi&_).
+  repeat split; try congruence. eapply tab_le_trans; [apply mark_tab_le|exact H2].
+Qed.
+
+Lemma killjobs_done : forall js s i w, In i js -> id_lookup (s_ids s) i = Some w ->
+  is_done (s_jobs (killjobs js s)) w = true.
+Proof.
+  induction js as [|i0 r IH]; intros s i w Hin El; [destruct Hin|]. cbn [killjobs].
+  destruct Hin as [Hin|Hin].
+  - subst i0. rewrite El. destruct (killjobs_ids r (mark_finished w (upd_err e_killed) s)) as (_&T&_).
+    eapply tab_le_done; [exact T|apply mark_done].
+  - destruct (id_lookup (s_ids s) i0) as [ser|] eqn:E0; [|eapply IH; eauto].
+    eapply IH; eauto. destruct (mark_fields ser (upd_err e_killed) s) as (_&_&_&Hi&_). rewrite Hi. exact El.
+Qed.
+
+(* entries dropped from running_jobs after finish/kill are finished jobs *)
+Lemma drop_running_inv : forall s c js,
+  Inv s [] [] -> c_st (get_conn (s_conns s) c) = Idle ->
+  (forall i w, In i js -> id_lookup (s_ids s) i = Some w -> is_done (s_jobs s) w = true) ->
+  Inv (set_conns (put_conn (s_conns s) (mkConn c (c_st (get_conn (s_conns s) c))
+                                               (fold_left run_del js (c_run (get_conn (s_conns s) c))))) s) [] [].
+Proof.
+  intros s c js I ES HD. apply conn_update_inv; auto.
+  - intros y n W. apply run_del_fold. intros i w Hi Hin Ewy. subst w.
+    destruct (conn_run_exists _ _ _ _ _ _ I Hin) as (j&Ej&Hid).
+    destruct (want_cases _ _ _ W) as [(_&D&j'&Ej'&Dj)|(_&En)]; [|congruence].
+    rewrite Ej in Ej'. inversion Ej'; subst j'.
+    pose proof (inv_addr _ _ _ I y j Ej Dj eq_refl) as A. rewrite Hid in A.
+    rewrite (HD i y Hi A) in D. discriminate.
+  - apply run_del_fold_incl.
+Qed.
+
+Lemma timeouts_loop_inv : forall q s L R, Inv s L R -> Inv (timeouts_loop q s) L R.
+Proof.
+  induction q as [|x r IH]; intros s L R I; cbn [timeouts_loop].
+  - eapply inv_same; eauto.
+  - destruct (is_done (s_jobs s) (snd (snd x))); [apply IH; exact I|].
+    destruct (s_now s <? fst x); [eapply inv_same; eauto|]. apply IH. apply mark_inv. exact I.
+Qed.
+
+Lemma getjob_cons_old : forall j js x j0, getjob js x = Some j0 -> j_serial j <> x -> getjob (j :: js) x = Some j0.
+Proof. intros j js x j0 E H. cbn [getjob]. apply N.eqb_neq in H. rewrite H. exact E. Qed.
+
+Lemma push_inv : forall ch prio name tmo s, Inv s [] [] -> Inv (fst (push ch prio name tmo s)) [] [].
+Proof.
+  intros ch prio name tmo s I. unfold push.
+  set (ser := s_count s + 1).
+  set (i := match name with Some n => JName n | None => JAuto ser end).
+  set (j := mkJob ser i ch prio (s_now s + match tmo with Some t => t | None => 120 end) false ENone None None 3600).
+  assert (FRESH : (forall y jy, getjob (s_jobs s) y = Some jy -> j_done jy = false -> j_id jy <> i) ->
+                  Inv (fst (pushjob ser (set_jobs (j :: s_jobs s) (set_count ser s)), i)) [] []).
+  { intro NEW. cbn [fst].
+    assert (OLD : forall y jy, getjob (s_jobs s) y = Some jy -> y <> ser).
+    { intros y jy Ey. pose proof (inv_tab _ _ _ I _ _ Ey). unfold ser. lia. }
+    assert (GN : getjob (s_jobs s) ser = None).
+    { destruct (getjob (s_jobs s) ser) eqn:E; [|reflexivity]. exfalso. eapply OLD; eauto. }
+    assert (GO : forall y, y <> ser -> getjob (j :: s_jobs s) y = getjob (s_jobs s) y).
+    { intros y Hy. cbn [getjob]. change (j_serial j) with ser. destruct (ser =? y) eqn:E; [apply N.eqb_eq in E; congruence|reflexivity]. }
+    assert (GS : getjob (j :: s_jobs s) ser = Some j).
+    { cbn [getjob]. change (j_serial j) with ser. rewrite N.eqb_refl. reflexivity. }
+    apply pushjob_inv with (j := j); sf; auto.
+    constructor; unfold locs; sf; try (destruct I; assumption).
+    - intros y n W. destruct (N.eq_dec y ser) as [E|E].
+      + subst y. unfold want in W. rewrite GS in W. cbn in W. inversion W; subst n.
+        pose proof (inv_cons _ _ _ I ser 0%nat) as H. unfold want in H. rewrite GN in H. specialize (H eq_refl).
+        unfold locs in H. cbn [occ] in *. rewrite ind_refl. lia.
+      + unfold want in W. rewrite GO in W by exact E. pose proof (inv_cons _ _ _ I y n W) as H. unfold locs in H.
+        cbn [occ] in *. rewrite ind_neq by congruence. lia.
+    - intros y jy Ey Dy Oy. cbn [occ] in Oy. destruct (N.eq_dec y ser) as [E|E]; [subst; rewrite ind_refl in Oy; lia|].
+      rewrite GO in Ey by exact E. apply (inv_addr _ _ _ I); auto.
+    - intros x y jx jy Ex Ey Dx Dy Hid.
+      destruct (N.eq_dec x ser) as [E1|E1]; destruct (N.eq_dec y ser) as [E2|E2]; try congruence.
+      + subst x. rewrite GS in Ex. inversion Ex; subst jx. rewrite GO in Ey by exact E2. exfalso. eapply NEW; eauto.
+      + subst y. rewrite GS in Ey. inversion Ey; subst jy. rewrite GO in Ex by exact E1. exfalso. eapply NEW; eauto.
+      + rewrite GO in Ex, Ey by assumption. eapply (inv_uniq _ _ _ I); eauto.
+    - intros x jx n Ex Hid. destruct (N.eq_dec x ser) as [E|E].
+      + subst x. rewrite GS in Ex. inversion Ex; subst jx. cbn in Hid. unfold i in Hid. destruct name; inversion Hid; reflexivity.
+      + rewrite GO in Ex by exact E. eapply (inv_auto _ _ _ I); eauto.
+    - intros x jx Ex. destruct (N.eq_dec x ser) as [E|E]; [subst; lia|].
+      rewrite GO in Ex by exact E. pose proof (inv_tab _ _ _ I _ _ Ex). unfold ser. lia.
+    - intros x jx Ex Dx. destruct (N.eq_dec x ser) as [E|E].
+      + subst x. rewrite GS in Ex. inversion Ex; subst jx. reflexivity.
+      + rewrite GO in Ex by exact E. eapply (inv_err _ _ _ I); eauto.
+    - intros k q p x Hin Hp. destruct (inv_q _ _ _ I _ _ _ _ Hin Hp) as (j0&E0&H0). exists j0. split; [|exact H0].
+      rewrite GO; [exact E0|eapply OLD; eauto].
+    - intros c0 i0 w Hin Hr. destruct (inv_run _ _ _ I _ _ _ Hin Hr) as (j0&E0&H0). exists j0. split; [|exact H0].
+      rewrite GO; [exact E0|eapply OLD; eauto].
+    - intros c0 chs x Hs. destruct (inv_mb _ _ _ I _ _ _ Hs) as (j0&E0&H0). exists j0. split; [|exact H0].
+      rewrite GO; [exact E0|eapply OLD; eauto]. }
+  destruct name as [n|].
+  - destruct (id_lookup (s_ids s) (JName n)) as [ser0|] eqn:El.
+    + destruct (getjob (s_jobs s) ser0) as [j0|] eqn:E0.
+      * destruct (err_is_killed (j_err j0)) eqn:EK; [|exact I].
+        apply FRESH. intros y jy Ey Dy Hid. unfold i in Hid.
+        pose proof (inv_addr _ _ _ I y jy Ey Dy eq_refl) as A. rewrite Hid, El in A. inversion A; subst ser0.
+        rewrite Ey in E0. inversion E0; subst j0. rewrite (inv_err _ _ _ I _ _ Ey Dy) in EK. discriminate.
+      * apply FRESH. intros y jy Ey Dy Hid. unfold i in Hid.
+        pose proof (inv_addr _ _ _ I y jy Ey Dy eq_refl) as A. rewrite Hid, El in A. inversion A; subst ser0. congruence.
+    + apply FRESH. intros y jy Ey Dy Hid. unfold i in Hid.
+      pose proof (inv_addr _ _ _ I y jy Ey Dy eq_refl) as A. rewrite Hid, El in A. discriminate.
+  - apply FRESH. intros y jy Ey Dy Hid. unfold i in Hid.
+    pose proof (inv_auto _ _ _ I _ _ _ Ey Hid) as A. pose proof (inv_tab _ _ _ I _ _ Ey). unfold ser in A. lia.
+Qed.
+
+(* ------------------------------------------------------------------ every op preserves the invariant *)
+
+Lemma setinfo_tab_le : forall js ser v,
+  tab_le js (setjob ser (fun j => mkJob (j_serial j) (j_id j) (j_chan j) (j_prio j) (j_timeout j) (j_done j)
+                                         (j_err j) (j_res j) (Some v) (j_ttl j)) js).
+Proof.
+  intros js ser v y. rewrite getjob_setjob by (intros; cbn; assumption).
+  destruct (y =? ser) eqn:E.
+  - apply N.eqb_eq in E. subst y. destruct (getjob js ser); cbn; auto.
+  - destruct (getjob js y); auto.
+Qed.
+
+Lemma step_inv : forall s o, Inv s [] [] -> Inv (fst (step s o)) [] [].
+Proof.
+  intros s o I. destruct o as [ch prio name tmo|c chs| |c i res e|c js|dt|c|k|c i|i|i v|]; cbn [step].
+  - pose proof (push_inv ch prio name tmo s I) as H. destruct (push ch prio name tmo s) as [s1 i]. exact H.
+  - destruct (is_idle c s) eqn:EI; [|exact I]. apply is_idle_st in EI.
+    apply pop_or_block_inv; auto.
+    + intros y n W. rewrite EI. reflexivity.
+    + intros chs' H. rewrite EI in H. discriminate.
+  - apply run_events_inv. eapply inv_same; eauto.
+  - destruct (is_idle c s) eqn:EI; [|exact I]. apply is_idle_st in EI.
+    destruct (id_lookup (s_ids s) i) as [ser|] eqn:El; [|exact I]. cbn [fst].
+    set (u := fun j => upd_finish res e (if err_truthy e then N_min 10 (j_ttl j) else j_ttl j) j).
+    destruct (mark_fields ser u s) as (_&Hc&_&Hi&_).
+    pose proof (mark_inv ser u s _ _ I) as I1.
+    apply (drop_running_inv (mark_finished ser u s) c [i] I1).
+    + rewrite Hc. exact EI.
+    + intros i' w [Hi'|[]] Hl. subst i'. rewrite Hi, El in Hl. inversion Hl; subst. apply mark_done.
+  - destruct (is_idle c s) eqn:EI; [|exact I]. apply is_idle_st in EI. cbn [fst].
+    destruct (killjobs_ids js s) as (Hi&_&Hc).
+    apply (drop_running_inv (killjobs js s) c js (killjobs_inv js s _ _ I)).
+    + rewrite Hc. exact EI.
+    + intros i w Hin Hl. rewrite Hi in Hl. eapply killjobs_done; eauto.
+  - cbn [fst]. unfold handletimeouts. apply preenall_inv. apply timeouts_loop_inv. eapply inv_same; eauto.
+  - destruct (c_st (get_conn (s_conns s) c)); cbn [fst]; try exact I; eapply inv_same; eauto.
+  - cbn [fst]. eapply inv_same; eauto.
+  - destruct (is_idle c s) eqn:EI; [|exact I]. apply is_idle_st in EI.
+    destruct (id_lookup (s_ids s) i) as [ser|]; [|exact I].
+    destruct (getjob (s_jobs s) ser) as [j|]; [|exact I].
+    destruct (j_done j && negb (done_pending ser (s_hub s))); [exact I|]. cbn [fst].
+    apply conn_update_inv; auto; [right; eexists; reflexivity|apply incl_refl].
+  - exact I.
+  - destruct (id_lookup (s_ids s) i) as [ser|]; [|exact I]. cbn [fst].
+    eapply inv_tab_le; eauto. sf. apply setinfo_tab_le.
+  - exact I.
+Qed.
+
+Lemma inv_init : Inv init [] [].
+Proof.
+  constructor; cbn; try discriminate; try tauto.
+  - intros x n H. inversion H. reflexivity.
+  - constructor.
+Qed.
+
+Lemma run_inv : forall h s, Inv s [] [] -> Inv (run h s) [] [].
+Proof. intros h s. apply (invariant_reachable (fun s => Inv s [] [])). apply step_inv. Qed.
+
+Lemma reachable_inv : forall h, Inv (run h init) [] [].
+Proof. intro h. apply run_inv. apply inv_init. Qed.
+
+(* ------------------------------------------------------------------ C16 statements *)
+
+(* places where job object x sits: channel queues + (mailboxes of blocked pullers + running_jobs) *)
+Definition in_queues (s : state) (x : N) : nat := occ_qs x (s_queues s).
+Definition with_workers (s : state) (x : N) : nat := occ_conns x (s_conns s).
+
+Lemma conservation : forall h x j,
+  let s := run h init in
+  getjob (s_jobs s) x = Some j -> j_done j = false ->
+  (in_queues s x + with_workers s x = 1)%nat /\
+  id_lookup (s_ids s) (j_id j) = Some x /\
+  (forall k q p, In (k, q) (s_queues s) -> In (p, x) q -> k = j_chan j /\ p = j_prio j).
+Proof.
+  intros h x j s E D. pose proof (reachable_inv h) as I. fold s in I.
+  split; [|split].
+  - pose proof (inv_cons _ _ _ I x 1%nat (want_undone _ _ _ E D)) as H. unfold locs in H. cbn [occ] in H.
+    unfold in_queues, with_workers. lia.
+  - apply (inv_addr _ _ _ I); auto.
+  - intros k q p Hin Hp. destruct (inv_q _ _ _ I _ _ _ _ Hin Hp) as (j'&E'&Hc&Hpp). rewrite E in E'. inversion E'; subst. auto.
+Qed.
+
+(* nothing but accepted jobs is ever queued or handed out, a registered waiter has an empty
+   mailbox (so a hand-off never overwrites a job), and no connection is registered twice *)
+Lemma no_phantoms : forall h x,
+  let s := run h init in
+  getjob (s_jobs s) x = None -> (in_queues s x + with_workers s x = 0)%nat.
+Proof.
+  intros h x s E. pose proof (reachable_inv h) as I. fold s in I.
+  pose proof (inv_cons _ _ _ I x 0%nat) as H. unfold want in H. rewrite E in H. specialize (H eq_refl).
+  unfold locs in H. cbn [occ] in H. unfold in_queues, with_workers. lia.
+Qed.
+
+Lemma waiters_empty_mailbox : forall h c chs,
+  let s := run h init in
+  In (c, chs) (s_waiters s) -> c_st (get_conn (s_conns s) c) = BPull chs None.
+Proof. intros h c chs s. apply (inv_wait _ _ _ (reachable_inv h)). Qed.
+
+Lemma mailbox_eligible : forall h c chs x,
+  let s := run h init in
+  c_st (get_conn (s_conns s) c) = BPull chs (Some x) ->
+  exists j, getjob (s_jobs s) x = Some j /\ eligible (j_chan j) chs.
+Proof. intros h c chs x s. apply (inv_mb _ _ _ (reachable_inv h)). Qed.
+
+Definition example_history : list op :=
+  [StartPull 1 [0]; StartPull 2 []; Add 0 1 None None; Add 0 0 (Some 0) None; Choice 1; Add 1 0 None (Some 5);
+   RunLoop; Disconnect 1; RunLoop; StartPull 3 [1; 0]].
+
+Lemma example_ok :
+  let s := run example_history init in
+  length example_history = 10%nat /\
+  map (fun j => (j_serial j, j_done j)) (s_jobs s) = [(3, false); (2, false); (1, false)] /\
+  map (fun x => (in_queues s x, with_workers s x)) [1; 2; 3] = [(1, 0); (0, 1); (0, 1)]%nat /\
+  map (fun c => c_st c) (s_conns s) = [Dead; Idle; Idle].
+Proof. vm_compute. repeat split. Qed.
